@@ -17,6 +17,7 @@ RULE = ('the real bilform_matrix and linform_vector run on every path: inline (N
         'moments of the pool path) the next call returns the bit-identical matrix and leaves a complete file; lists with identical element text '
         'on different curves and different lists on one curve never serve each other. distinct = distinct (object, path, worker count, '
         'delay seed, fault class) cases; distinct schedule signatures (task->pid map + completion order) are counted')
+RULE += ' ' + 'A further group of schedule shards starts from initial time grids that are not dyadic (tenths, thirds, irregular), where time differences of translated pairs agree only up to rounding.'
 ASSUMPTIONS = [
     'faults the property does not name (bit flips inside the data block, a well-formed file of another matrix planted under the same '
     'name) are not injected: the format has no checksum',
@@ -26,7 +27,7 @@ ASSUMPTIONS = [
 FAULTS = ['missing', 'empty', 'ten-bytes', 'header-only', 'half', 'one-byte-short']
 REQUIRED = {t: ['path:inline', 'path:serial', 'path:pool', 'path:cache-hit', 'workers:1', 'workers:16', 'list:rectangular', 'list:below-threshold',
                 'history:different-lists-one-process', 'fault:planted', 'fault:save-raises', 'fault:crash-during-save', 'fault:crash-during-assembly', 'object:matrix',
-                'object:load-vector', 'keys:same-text-other-curve', 'keys:deep-siblings', 'call:test-list-only', 'trace:checked', 'source:driver'] + ['fault-class:' + f for f in FAULTS]
+                'object:load-vector', 'keys:same-text-other-curve', 'keys:deep-siblings', 'call:test-list-only', 'trace:checked', 'source:driver', 'mesh:non-dyadic-time-grid'] + ['fault-class:' + f for f in FAULTS]
             for t in ('quick', 'thorough')}
 TIMEOUT = {'quick': 1500, 'thorough': 7200}
 CURVES = ['UnitSquare', 'PiSquare', 'LShape', 'Circle', 'UnitInterval']
@@ -40,6 +41,12 @@ def plan(tier, seed):
                           'workers': list(range(1, 17)) if tier == 'thorough' else [1, 2, 3, 5, 8, 16], 'delays': 3 if tier == 'thorough' else 2,
                           'n_ops': 26 + 12 * k})
             specs.append({'name': 'fault-%s-%d' % (c, k), 'mode': 'fault', 'curve': c, 'rseed': seed * 103 + ci + 19 * k, 'n_ops': 22 + 10 * k})
+    # initial time grids that are not dyadic (tenths, thirds, irregular): time differences of translated pairs agree only up to rounding
+    grids = [[k / 10 for k in range(11)], [0, 1 / 3, 2 / 3, 1], [0, 0.1, 0.3, 0.6, 1.0], [0, 0.7, 0.8, 0.9, 1.0, 1.1]]
+    for ci, c in enumerate(CURVES):
+        for k in range(1 if tier == 'quick' else 4):
+            specs.append({'name': 'sched-nondyadic-%s-%d' % (c, k), 'mode': 'sched', 'curve': c, 'rseed': seed * 109 + ci + 23 * k, 'time_grid': grids[(ci + k) % len(grids)],
+                          'workers': [3] if tier == 'quick' else [1, 4, 16], 'delays': 1, 'n_ops': 6 + 6 * k})
     for c in ('UnitSquare', 'LShape', 'PiSquare'):
         specs.append({'name': 'm0-%s' % c, 'mode': 'm0', 'curve': c, 'rseed': seed * 107, 'workers': [1, 3, 16] if tier == 'quick' else [1, 2, 4, 7, 16]})
     specs.append({'name': 'keys', 'mode': 'keys', 'rseed': seed})
@@ -106,7 +113,10 @@ def run_sched(spec, acc):
     import src.single_layer as SLmod
     curve = spec['curve']
     rng = random.Random(spec['rseed'])
-    ls, geo = slpairs.make_mesh(curve, spec['rseed'], spec['n_ops'], time_grid=rng.choice([[0, 1], [0, 0.5, 1]]))
+    tg_default = rng.choice([[0, 1], [0, 0.5, 1]])
+    ls, geo = slpairs.make_mesh(curve, spec['rseed'], spec['n_ops'], time_grid=spec.get('time_grid') or tg_default)
+    if spec.get('time_grid'):
+        acc.seen('mesh:non-dyadic-time-grid')
     elems = list(ls.mesh.leaf_elements)
     wit0 = {'curve': curve, 'mesh': ls.spec, 'history': ls.history}
     trace_fn = os.path.join(env.scratch_root(), 'trace-%s-%d.jsonl' % (curve, os.getpid()))
